@@ -43,11 +43,13 @@ pub fn word(rng: &mut Rng, max_len: usize) -> String {
     (0..n).map(|_| (b'a' + rng.below(26) as u8) as char).collect()
 }
 
-pub const VALUES: [&str; 40] = [
+pub const VALUES: [&str; 50] = [
     "", " ", "a", "a b", "  x  ", "${x}", "%{x}", "\\${x}", "${", "%", "$", "\\", "\\\\", "\"",
     "\"a b\"", "a\"b", "#", "a#b", "a #b", "=", "=x", "a=b", ":", "handle:abc", "and", "or", "(",
     ")", "not", "true", "false", "0", "no", "line1\nline2", "cr\rlf", "tab\there", "é漢😀",
     "\0", "x\u{a0}", "end ",
+    // words that differ from a keyword / a falsy word only in letter case
+    "AND", "Or", "And", "OR", "NOT", "True", "FALSE", "No", "Not", "End",
 ];
 
 pub fn value(rng: &mut Rng) -> String {
